@@ -5,6 +5,7 @@ from ..core.db import AnalysisError, norm_stmt, walk_no_nested
 from ..core.interp import Interp, Const, Tup, Unknown, Obj
 from ..domains.origin import OriginDomain, Og, Real, Ix, half as ohalf
 from . import c04
+from .purity import memo_completeness, input_mutations
 
 CV = 'prysm.convolution.'
 OT = 'prysm.otf.'
@@ -160,6 +161,22 @@ def otf_rules(run, db):
                           '%s = %s is not the DC sample n//2 for %s' % (var, c04.sh(dom, v), ptxt(par)), fi.loc())
 
 
+def cache_rules(run, db):
+    """History independence: any memo in the image-formation modules is keyed by everything its fill reads."""
+    res = memo_completeness(db, ['prysm.convolution', 'prysm.otf', 'prysm.fttools', 'prysm.coordinates'])
+    for fi, st, memo, missing in res:
+        run.check(not missing, 'C15.cache', fi.qual, 'memo %s' % memo, 'memo %s is keyed by every input its fill block reads' % memo,
+                  'the memo %s is filled from %s, which the key does not contain: a later call that differs only in %s gets the cached value of the earlier call (results depend on call history)'
+                  % (memo, missing, missing), fi.loc(st))
+    for q in (CV + 'conv', CV + 'apply_transfer_functions', OT + 'transform_psf', OT + 'mtf_from_psf', OT + 'ptf_from_psf', OT + 'otf_from_psf'):
+        fi = db.func(q)
+        muts = [m for m in input_mutations(fi) if m[1] in fi.params]
+        for st, name in muts:
+            run.finding('C15.cache', fi.qual, norm_stmt(st), 'in-place write through the argument `%s`: the caller\'s array is modified' % name, fi.loc(st))
+        if not muts:
+            run.ok('C15.cache', fi.qual, 'arguments are not written through')
+
+
 def check(run, db, tier):
     run.trust('ORIGIN typestate (origin index and phase ramp per parity class); convolution theorem: a product of spectra with equal DC index is a circular convolution about that origin')
     run.assume('not decided: MTF <= 1, point symmetry, energy product (mathematical facts about values of non-negative PSFs)')
@@ -167,7 +184,8 @@ def check(run, db, tier):
     run.rule('C15.grid', 'frequency grids given to callable transfer functions use the convention of the spectrum they multiply')
     run.rule('C15.fold', 'the transfer-function list is folded multiplicatively over every element exactly once')
     run.rule('C15.dc', 'MTF/PTF/OTF share one transform and are normalised by their own sample at n//2')
-    for fn in (conv_rules, atf_rules, otf_rules):
+    run.rule('C15.cache', 'no memo keyed by less than its fill reads; arguments are not modified in place (results do not depend on call history)')
+    for fn in (conv_rules, atf_rules, otf_rules, cache_rules):
         run.group(fn, run, db)
     run.require_instances('C15.origin', 12)
     run.require_instances('C15.dc', 20)
